@@ -1,5 +1,5 @@
 // auto-generated: "lalrpop 0.23.1"
-// sha3: f72e6687aada03f93079736a4b363f5f073a455def1c1fd835ed6cff9663bd6a
+// sha3: 2cf1563ed9b3e8c69554e9efdacff6e78b71b454f0a467c70637032cee54bb3a
 use crate::rt::*;
 #[allow(unused_extern_crates)]
 extern crate lalrpop_util as __lalrpop_util;
@@ -678,12 +678,11 @@ fn __action2<
     (_, l, _): (i64, i64, i64),
     (_, c0, _): (i64, Tok, i64),
     (_, c1, _): (i64, Tree, i64),
-    (_, pL2, _): (i64, i64, i64),
     (_, c2, _): (i64, Tok, i64),
     (_, r, _): (i64, i64, i64),
 ) -> Tree
 {
-    { probe("S#1", 2, 'L', pL2); node("S#1", l, r, vec![Tree::from(c0), Tree::from(c1), Tree::from(c2)]) }
+    node("S#1", l, r, vec![Tree::from(c0), Tree::from(c1), Tree::from(c2)])
 }
 
 #[allow(clippy::too_many_arguments, clippy::needless_lifetimes, clippy::just_underscores_and_digits, clippy::extra_unused_type_parameters)]
@@ -694,39 +693,39 @@ fn __action3<
     (_, c1, _): (i64, Tree, i64),
     (_, pL2, _): (i64, i64, i64),
     (_, c2, _): (i64, Tok, i64),
-    (_, pL3, _): (i64, i64, i64),
     (_, r, _): (i64, i64, i64),
 ) -> Tree
 {
-    { probe("S#2", 2, 'L', pL2); probe("S#2", 3, 'L', pL3); node("S#2", l, r, vec![Tree::from(c0), Tree::from(c1), Tree::from(c2)]) }
+    { probe("S#2", 2, 'L', pL2); node("S#2", l, r, vec![Tree::from(c0), Tree::from(c1), Tree::from(c2)]) }
 }
 
 #[allow(clippy::too_many_arguments, clippy::needless_lifetimes, clippy::just_underscores_and_digits, clippy::extra_unused_type_parameters)]
 fn __action4<
 >(
     (_, l, _): (i64, i64, i64),
-    (_, pL0, _): (i64, i64, i64),
     (_, c0, _): (i64, Tok, i64),
-    (_, pL1, _): (i64, i64, i64),
     (_, c1, _): (i64, Tree, i64),
+    (_, pL2, _): (i64, i64, i64),
     (_, c2, _): (i64, Tok, i64),
+    (_, pL3, _): (i64, i64, i64),
     (_, r, _): (i64, i64, i64),
 ) -> Tree
 {
-    { probe("S#3", 0, 'L', pL0); probe("S#3", 1, 'L', pL1); node("S#3", l, r, vec![Tree::from(c0), Tree::from(c1), Tree::from(c2)]) }
+    { probe("S#3", 2, 'L', pL2); probe("S#3", 3, 'L', pL3); node("S#3", l, r, vec![Tree::from(c0), Tree::from(c1), Tree::from(c2)]) }
 }
 
 #[allow(clippy::too_many_arguments, clippy::needless_lifetimes, clippy::just_underscores_and_digits, clippy::extra_unused_type_parameters)]
 fn __action5<
 >(
     (_, l, _): (i64, i64, i64),
+    (_, pL0, _): (i64, i64, i64),
     (_, c0, _): (i64, Tok, i64),
     (_, pL1, _): (i64, i64, i64),
     (_, c1, _): (i64, Tree, i64),
     (_, r, _): (i64, i64, i64),
 ) -> Tree
 {
-    { probe("X#0", 1, 'L', pL1); node("X#0", l, r, vec![Tree::from(c0), Tree::from(c1)]) }
+    { probe("X#0", 0, 'L', pL0); probe("X#0", 1, 'L', pL1); node("X#0", l, r, vec![Tree::from(c0), Tree::from(c1)]) }
 }
 
 #[allow(clippy::too_many_arguments, clippy::needless_lifetimes, clippy::just_underscores_and_digits, clippy::extra_unused_type_parameters)]
@@ -735,26 +734,22 @@ fn __action6<
     (_, l, _): (i64, i64, i64),
     (_, pR0, _): (i64, i64, i64),
     (_, c0, _): (i64, Tok, i64),
-    (_, pL1, _): (i64, i64, i64),
     (_, c1, _): (i64, Tree, i64),
-    (_, pR2, _): (i64, i64, i64),
     (_, r, _): (i64, i64, i64),
 ) -> Tree
 {
-    { probe("Y#0", 0, 'R', pR0); probe("Y#0", 1, 'L', pL1); probe("Y#0", 2, 'R', pR2); node("Y#0", l, r, vec![Tree::from(c0), Tree::from(c1)]) }
+    { probe("Y#0", 0, 'R', pR0); node("Y#0", l, r, vec![Tree::from(c0), Tree::from(c1)]) }
 }
 
 #[allow(clippy::too_many_arguments, clippy::needless_lifetimes, clippy::just_underscores_and_digits, clippy::extra_unused_type_parameters)]
 fn __action7<
 >(
     (_, l, _): (i64, i64, i64),
-    (_, pR0, _): (i64, i64, i64),
     (_, c0, _): (i64, Tok, i64),
-    (_, pR1, _): (i64, i64, i64),
     (_, r, _): (i64, i64, i64),
 ) -> Tree
 {
-    { probe("Q#0", 0, 'R', pR0); probe("Q#0", 1, 'R', pR1); node("Q#0", l, r, vec![Tree::from(c0)]) }
+    node("Q#0", l, r, vec![Tree::from(c0)])
 }
 
 #[allow(clippy::needless_lifetimes, clippy::clone_on_copy)]
@@ -781,10 +776,8 @@ fn __action9<
     clippy::just_underscores_and_digits, clippy::clone_on_copy, clippy::unit_arg)]
 fn __action10<
 >(
-    __0: (i64, i64, i64),
-    __1: (i64, Tok, i64),
-    __2: (i64, i64, i64),
-    __3: (i64, i64, i64),
+    __0: (i64, Tok, i64),
+    __1: (i64, i64, i64),
 ) -> Tree
 {
     let __start0 = __0.0.clone();
@@ -798,8 +791,6 @@ fn __action10<
         __temp0,
         __0,
         __1,
-        __2,
-        __3,
     )
 }
 
@@ -841,6 +832,32 @@ fn __action12<
 {
     let __start0 = __0.0.clone();
     let __end0 = __0.0.clone();
+    let __temp0 = __action9(
+        &__start0,
+        &__end0,
+    );
+    let __temp0 = (__start0, __temp0, __end0);
+    __action2(
+        __temp0,
+        __0,
+        __1,
+        __2,
+        __3,
+    )
+}
+
+#[allow(clippy::too_many_arguments, clippy::needless_lifetimes,
+    clippy::just_underscores_and_digits, clippy::clone_on_copy, clippy::unit_arg)]
+fn __action13<
+>(
+    __0: (i64, Tok, i64),
+    __1: (i64, Tree, i64),
+    __2: (i64, Tok, i64),
+    __3: (i64, i64, i64),
+) -> Tree
+{
+    let __start0 = __0.0.clone();
+    let __end0 = __0.0.clone();
     let __start1 = __1.2.clone();
     let __end1 = __2.0.clone();
     let __temp0 = __action9(
@@ -853,7 +870,7 @@ fn __action12<
         &__end1,
     );
     let __temp1 = (__start1, __temp1, __end1);
-    __action2(
+    __action3(
         __temp0,
         __0,
         __1,
@@ -865,7 +882,7 @@ fn __action12<
 
 #[allow(clippy::too_many_arguments, clippy::needless_lifetimes,
     clippy::just_underscores_and_digits, clippy::clone_on_copy, clippy::unit_arg)]
-fn __action13<
+fn __action14<
 >(
     __0: (i64, Tok, i64),
     __1: (i64, Tree, i64),
@@ -894,7 +911,7 @@ fn __action13<
         &__end2,
     );
     let __temp2 = (__start2, __temp2, __end2);
-    __action3(
+    __action4(
         __temp0,
         __0,
         __1,
@@ -907,12 +924,11 @@ fn __action13<
 
 #[allow(clippy::too_many_arguments, clippy::needless_lifetimes,
     clippy::just_underscores_and_digits, clippy::clone_on_copy, clippy::unit_arg)]
-fn __action14<
+fn __action15<
 >(
     __0: (i64, Tok, i64),
     __1: (i64, Tree, i64),
-    __2: (i64, Tok, i64),
-    __3: (i64, i64, i64),
+    __2: (i64, i64, i64),
 ) -> Tree
 {
     let __start0 = __0.0.clone();
@@ -936,44 +952,11 @@ fn __action14<
         &__end2,
     );
     let __temp2 = (__start2, __temp2, __end2);
-    __action4(
+    __action5(
         __temp0,
         __temp1,
         __0,
         __temp2,
-        __1,
-        __2,
-        __3,
-    )
-}
-
-#[allow(clippy::too_many_arguments, clippy::needless_lifetimes,
-    clippy::just_underscores_and_digits, clippy::clone_on_copy, clippy::unit_arg)]
-fn __action15<
->(
-    __0: (i64, Tok, i64),
-    __1: (i64, Tree, i64),
-    __2: (i64, i64, i64),
-) -> Tree
-{
-    let __start0 = __0.0.clone();
-    let __end0 = __0.0.clone();
-    let __start1 = __0.2.clone();
-    let __end1 = __1.0.clone();
-    let __temp0 = __action9(
-        &__start0,
-        &__end0,
-    );
-    let __temp0 = (__start0, __temp0, __end0);
-    let __temp1 = __action9(
-        &__start1,
-        &__end1,
-    );
-    let __temp1 = (__start1, __temp1, __end1);
-    __action5(
-        __temp0,
-        __0,
-        __temp1,
         __1,
         __2,
     )
@@ -987,31 +970,21 @@ fn __action16<
     __1: (i64, Tok, i64),
     __2: (i64, Tree, i64),
     __3: (i64, i64, i64),
-    __4: (i64, i64, i64),
 ) -> Tree
 {
     let __start0 = __0.0.clone();
     let __end0 = __0.0.clone();
-    let __start1 = __1.2.clone();
-    let __end1 = __2.0.clone();
     let __temp0 = __action9(
         &__start0,
         &__end0,
     );
     let __temp0 = (__start0, __temp0, __end0);
-    let __temp1 = __action9(
-        &__start1,
-        &__end1,
-    );
-    let __temp1 = (__start1, __temp1, __end1);
     __action6(
         __temp0,
         __0,
         __1,
-        __temp1,
         __2,
         __3,
-        __4,
     )
 }
 
@@ -1022,32 +995,16 @@ fn __action17<
     __0: (i64, Tok, i64),
 ) -> Tree
 {
-    let __start0 = __0.0.clone();
-    let __end0 = __0.0.clone();
-    let __start1 = __0.2.clone();
-    let __end1 = __0.2.clone();
-    let __start2 = __0.2.clone();
-    let __end2 = __0.2.clone();
+    let __start0 = __0.2.clone();
+    let __end0 = __0.2.clone();
     let __temp0 = __action8(
         &__start0,
         &__end0,
     );
     let __temp0 = (__start0, __temp0, __end0);
-    let __temp1 = __action8(
-        &__start1,
-        &__end1,
-    );
-    let __temp1 = (__start1, __temp1, __end1);
-    let __temp2 = __action8(
-        &__start2,
-        &__end2,
-    );
-    let __temp2 = (__start2, __temp2, __end2);
     __action10(
-        __temp0,
         __0,
-        __temp1,
-        __temp2,
+        __temp0,
     )
 }
 
@@ -1181,8 +1138,6 @@ fn __action23<
     let __end0 = __0.0.clone();
     let __start1 = __1.2.clone();
     let __end1 = __1.2.clone();
-    let __start2 = __1.2.clone();
-    let __end2 = __1.2.clone();
     let __temp0 = __action8(
         &__start0,
         &__end0,
@@ -1193,17 +1148,11 @@ fn __action23<
         &__end1,
     );
     let __temp1 = (__start1, __temp1, __end1);
-    let __temp2 = __action8(
-        &__start2,
-        &__end2,
-    );
-    let __temp2 = (__start2, __temp2, __end2);
     __action16(
         __temp0,
         __0,
         __1,
         __temp1,
-        __temp2,
     )
 }
 
